@@ -1,6 +1,8 @@
 package props
 
 import (
+	"strings"
+	"bytes"
 	"os"
 	"fmt"
 	"io"
@@ -888,7 +890,7 @@ func c33Scenarios() []c33Scenario {
 		}},
 		{name: "tls13-hrr", tls13: true, setup: func(ch *wire.ClientHello, o Offer) (*tls.Config, *tls.VerifPlan, func([]byte) []byte, bool) {
 			g := hrrGroupFor(ch)
-			return srv(tls.VersionTLS13), &tls.VerifPlan{ForceGroup: g}, nil, has13(o) && g != 0 && !ch.Has(wire.ExtPreSharedKey)
+			return srv(tls.VersionTLS13), &tls.VerifPlan{ForceGroup: g}, nil, has13(o) && g != 0
 		}},
 		{name: "tls13-clientauth", tls13: true, clientCert: true, setup: func(ch *wire.ClientHello, o Offer) (*tls.Config, *tls.VerifPlan, func([]byte) []byte, bool) {
 			c := srv(tls.VersionTLS13)
@@ -1062,6 +1064,9 @@ func c33Run(cs c33Case, ch *wire.ClientHello, o Offer, cache tls.ClientSessionCa
 	s.SetDeadline(time.Now().Add(dl + 2*time.Second))
 	ccfg := peer.ClientConfig("example.test")
 	ccfg.OmitEmptyPsk = true
+	if cache == nil && strings.HasSuffix(cs.tg.Name, "+fake-psk-setter") {
+		cache = fakePSKWarmCache()
+	}
 	ccfg.ClientSessionCache = cache
 	ccfg.PreferSkipResumptionOnNilExtension = true // documented switch: specs without the extension skip resumption instead of panicking
 	ccfg.NextProtos = nil
@@ -1459,6 +1464,41 @@ func TestC33(t *testing.T) {
 		targets = append(targets, CustomTarget(i))
 	}
 	targets = append(targets, NoShareTargets()...) // specs without a usable key share in the first hello
+	// a FAKE pre_shared_key extension handed over through the documented setter, by a client
+	// whose session cache holds a (real) session of the server
+	for _, pn := range []string{"Chrome_100_PSK", "Chrome_112_PSK_Shuf"} {
+		p := ParrotByName(pn)
+		targets = append(targets, Target{Name: p.Name + "+fake-psk-setter", ID: p.ID, Pre: func(u *tls.UConn) error {
+			err := u.SetPskExtension(&tls.FakePreSharedKeyExtension{
+				Identities: []tls.PskIdentity{{Label: bytes.Repeat([]byte{0x43}, 130), ObfuscatedTicketAge: 0x55667788}},
+				Binders:    [][]byte{bytes.Repeat([]byte{0x34}, 32)},
+			})
+			if err != nil && strings.Contains(err.Error(), "session is disabled") {
+				return nil // (probing the hello without a session cache: the setter refuses, nothing is injected)
+			}
+			return err
+		}})
+	}
+	// specs that carry a FAKE pre_shared_key extension (identities and binders that belong to
+	// no session), as a caller mimicking a resuming client does
+	for _, pn := range []string{"Chrome_100_PSK", "Chrome_112_PSK_Shuf", "Chrome_115_PQ_PSK"} {
+		p := ParrotByName(pn)
+		targets = append(targets, Target{Name: p.Name + "+fake-psk", Spec: func() (*tls.ClientHelloSpec, error) {
+			sp, err := tls.UTLSIdToSpec(p.ID)
+			if err != nil {
+				return nil, err
+			}
+			for i, e := range sp.Extensions {
+				if _, ok := e.(tls.PreSharedKeyExtension); ok {
+					sp.Extensions[i] = &tls.FakePreSharedKeyExtension{
+						Identities: []tls.PskIdentity{{Label: bytes.Repeat([]byte{0x42}, 120), ObfuscatedTicketAge: 0x11223344}},
+						Binders:    [][]byte{bytes.Repeat([]byte{0x24}, 32)},
+					}
+				}
+			}
+			return &sp, nil
+		}})
+	}
 	// custom specs advertising each certificate-compression subset
 	for _, algs := range [][]tls.CertCompressionAlgo{{tls.CertCompressionZlib}, {tls.CertCompressionZstd}, {tls.CertCompressionBrotli, tls.CertCompressionZlib, tls.CertCompressionZstd}, {tls.CertCompressionZstd, tls.CertCompressionZlib}} {
 		targets = append(targets, Target{Name: fmt.Sprintf("custom-compress-%v", algs), Spec: customCompressSpec(algs)})
@@ -1503,6 +1543,9 @@ func TestC33(t *testing.T) {
 		}
 		if sc.ech != "" && !echCapable(ch, tg) {
 			return
+		}
+		if sc.resume && strings.Contains(tg.Name, "+fake-psk") {
+			return // a fake pre_shared_key next to a session cache that holds a real session is contradictory use (uTLS says so with an explanatory assertion)
 		}
 		if sc.needPSKExt && tg.ID.Client != tls.HelloGolang.Client && !specHas(tg, func(e tls.TLSExtension) bool { _, ok := e.(tls.PreSharedKeyExtension); return ok }) {
 			return
@@ -1806,7 +1849,7 @@ func TestC33(t *testing.T) {
 			cs := cases[perm[k%len(cases)]]
 			rg := Sub("C33reneg-flavour", k)
 			cs.seed = k
-			cs.warm13 = cs.can13 && rg.Intn(3) == 0
+			cs.warm13 = cs.can13 && rg.Intn(3) == 0 && !strings.Contains(cs.tg.Name, "+fake-psk") // (a fake PSK next to a cached real session: contradictory use)
 			cs.reneg = []int{-1, -1, -1, int(tls.RenegotiateNever), int(tls.RenegotiateOnceAsClient), int(tls.RenegotiateFreelyAsClient)}[rg.Intn(6)]
 			cs.preRequest = rg.Intn(3) == 0
 			cs.requests = []int{1, 1, 1, 2, 3}[rg.Intn(5)]
@@ -1943,3 +1986,23 @@ func indexStr(s, sub string) int {
 }
 
 var _ = io.EOF
+
+// fakePSKWarmCache: a fresh cache holding a real TLS 1.3 session for example.test (obtained
+// once by a clean Chrome_100 connection).
+var fakePSKWarmEntry = sync.OnceValue(func() *tls.ClientSessionState {
+	cache := newMapCache()
+	w := peer.ServerConfig()
+	w.MinVersion = tls.VersionTLS13
+	ccfg := peer.ClientConfig("example.test")
+	ccfg.ClientSessionCache = cache
+	peer.Run(ccfg, tls.HelloChrome_100, w, peer.Opts{})
+	return cache.Any()
+})
+
+func fakePSKWarmCache() tls.ClientSessionCache {
+	c := tls.NewLRUClientSessionCache(4)
+	if e := fakePSKWarmEntry(); e != nil {
+		c.Put("example.test", e)
+	}
+	return c
+}
